@@ -85,11 +85,16 @@ func (f c14fault) apply(env *Env) {
 		env.Writer.FailAt, env.Writer.Once = f.k, true
 	case "writer-full":
 		env.Writer.FailAt, env.Writer.Full = f.k, true
+	case "writer+reader-silent":
+		// the writer fails at write k while the input is a pipe whose other end has gone
+		// silent: after the last byte Read does not report EOF, it never returns
+		env.Writer.FailAt = f.k
+		env.Reader.Stall, env.Reader.StallAt = true, len(env.Doc)
 	}
 	env.Writer.ErrVariant = f.k / 2
 }
 
-var c14kinds = []string{"reader", "reader+data", "reader-once", "writer", "writer-torn", "writer-short", "writer-once", "writer-full"}
+var c14kinds = []string{"reader", "reader+data", "reader-once", "writer", "writer-torn", "writer-short", "writer-once", "writer-full", "writer+reader-silent"}
 
 func caseC14(c *Ctx) {
 	massive := pickArm(c, []string{"simple", "massive"}, 5, 5) == "massive"
@@ -173,6 +178,12 @@ func caseC14(c *Ctx) {
 
 	judge := func(f c14fault, out *Outcome, sched uint64) {
 		c.st.Count("evaluations")
+		if f.kind == "writer+reader-silent" && !out.WriterFired {
+			// the call needed the end of the input before it got to write k: with an input that
+			// never ends there is nothing to judge
+			c.st.Count("silent-reader:write-not-reached")
+			return
+		}
 		fired := out.ReaderFired || out.WriterFired
 		if fired {
 			c.st.Distinct("nontrivial", mix(hashStr(string(doc)+op.String()+f.kind+fmt.Sprint(f.k)), sched))
@@ -241,6 +252,12 @@ func caseC14(c *Ctx) {
 			for j := 0; j < W; j++ {
 				faults = append(faults, c14fault{"writer", j}, c14fault{"writer-torn", j}, c14fault{"writer-short", j}, c14fault{"writer-once", j}, c14fault{"writer-full", j})
 			}
+			if !op.FromRoot && W > 0 {
+				faults = append(faults, c14fault{"writer+reader-silent", 0})
+				if j := int(mix(hashStr(string(doc)), 7) % uint64(W)); j > 0 {
+					faults = append(faults, c14fault{"writer+reader-silent", j})
+				}
+			}
 		}
 		c.st.Add("enumerated.reader-offsets", L+1)
 		c.st.Add("enumerated.write-indices", W)
@@ -249,7 +266,13 @@ func caseC14(c *Ctx) {
 			discardFor = f.kind
 			env := mkEnv()
 			f.apply(env)
-			out := c.Direct(simple, env)
+			var out *Outcome
+			if f.kind == "writer+reader-silent" {
+				env.MaxSteps = 40000 + 4*len(doc)
+				out = c.Sim("silent", simple, env) // (a goroutine parked for ever needs the scheduler)
+			} else {
+				out = c.Direct(simple, env)
+			}
 			judge(f, out, 0)
 		}
 		c.st.Sample("simple/"+op.Kind, map[string]any{"mode": "simple", "op": op.String(), "doc": string(doc), "reader_offsets_enumerated": L + 1, "write_indices_enumerated": W})
